@@ -46,7 +46,35 @@ def eigvalsh_stub(matrix, *a, **k):
     c.axiom(z3.And(*[(x <= rho).z3() for x in absd]))
     c.axiom(z3.Or(*[(x == rho).z3() for x in absd]))
     c.axiom(z3.And((es[0] <= es[1]).z3(), (es[1] <= es[2]).z3()))
-    return sarr(np.array(es, dtype=object))
+    out = sarr(np.array(es, dtype=object)).view(EigVals)
+    out._rho = rho
+    return out
+
+
+class EigVals(SArr):
+    """Eigenvalue array whose `np.abs(.).max()` is, by the contract above, exactly specrad."""
+
+    _rho = None
+
+    def __array_finalize__(self, obj):
+        self._rho = getattr(obj, "_rho", None)
+
+    def _abs(self):
+        out = np.absolute(self.view(SArr)).view(AbsEigVals)
+        out._rho = self._rho
+        return out
+
+
+class AbsEigVals(SArr):
+    _rho = None
+
+    def __array_finalize__(self, obj):
+        self._rho = getattr(obj, "_rho", None)
+
+    def max(self, axis=None, **kw):
+        if self._rho is not None and self.shape == (3,):
+            return self._rho
+        return SArr.max(self.view(SArr), axis=axis)
 
 
 class LaStub:
